@@ -1,6 +1,6 @@
 CHECK = dict(
     level="exploration",
-    level_text="Generated-schedule search. (a) rapid operation sequences (start-accept, deliver-conn, close-conn once/again/concurrently, close-listener once/again, add-listener, accept on a closed listener) over 1-4 fake listeners sharing one real Limiter, stop 1..6, resume 0..stop; after every operation the harness waits for quiescence decided from state (every accept goroutine finished, blocked in the fake listener, or parked in sync.Cond.Wait with no notification pending) and compares counter.current / isAccepting with a hysteresis reference, checks open+pending <= stop at every entry of the underlying Accept, that no accept on an open listener stays parked while the counter accepts, that a closed listener has no waiters, and that every connection releases exactly one slot. The bare counter is checked against the same reference on random increment/decrement sequences. (b) bursts of 1..20 pipelined queries on one connection to real ServerDNS(TCP)/ServerTLS instances with MaxPipelineCount 1..4 and a handler parked on a harness channel: concurrent handler invocations <= limit at all times, every query answered exactly once after release. Held on N generated cases is evidence, not proof.",
+    level_text="Generated-schedule search. (a) rapid operation sequences (start-accept, deliver-conn, close-conn once/again/concurrently, close-listener once/again, add-listener, accept on a closed listener) over 1-4 fake listeners sharing one real Limiter, stop 1..6, resume 0..stop; after every operation the harness waits for quiescence decided from state (every accept goroutine finished, blocked in the fake listener, or parked in sync.Cond.Wait with no notification pending) and compares counter.current / isAccepting with a hysteresis reference, checks open+pending <= stop at every entry of the underlying Accept, that no accept on an open listener stays parked while the counter accepts, that a closed listener has no waiters, and that every connection releases exactly one slot. The bare counter is checked against the same reference on random increment/decrement sequences. (b) bursts of 1..20 pipelined queries on one connection to real ServerDNS(TCP)/ServerTLS instances with MaxPipelineCount 1..4 and a handler parked on a harness channel: concurrent handler invocations <= limit at all times, every query answered exactly once after release; the same bound (and nothing answered twice) with a request-context deadline of 30-80 ms, queries arriving in two waves and a context-ignoring handler that keeps the pipeline full for 1.3-2.5 deadlines. Held on N generated cases is evidence, not proof.",
     level_note="The harness owns the order of accept/close operations; which waiter a wake-up reaches, and the interleaving of goroutines woken by one operation, are sampled from the Go scheduler (the oracle accepts every legal order). Over-admission in (b) is observed through a 2-4 ms window after each predicted arrival, so a late over-admitted query can be missed; a stalled connection is a violation only when a goroutine dump proves the reader can never get a slot, otherwise inconclusive.",
     technique="property-based testing (rapid): stateful operation sequences over fake listeners vs a hysteresis reference model with state-decided quiescence; generated bursts against real loopback TCP/DoT servers with a blocking handler",
     assumptions=[
@@ -16,6 +16,7 @@ CHECK = dict(
         ]),
         dict(name="pipeline", dir="internal/dnsserver", src="C18/pipeline", runs=[
             dict(name="bursts", run="^TestVerifC18Pipeline$", quick=600, thorough=20000, shards_thorough=4),
+            dict(name="deadline", run="^TestVerifC18PipelineDeadline$", quick=300, thorough=6000, shards_quick=2, shards_thorough=6),
         ]),
     ],
 )
